@@ -30,56 +30,64 @@ RULE = ("probability vectors: 8 dyadic classes (uniform, one dominant, many zero
         "random) of length 1..400, non-dyadic vectors for the oracle; uniforms: breakpoints of the implementation's tables -/+ one "
         "step, 0, 1-2^-53, random dyadics; chains: dyadic step measures on uniform grids through MarkovChainProcess for every "
         "SamplingMethod and 2-d independent/dependent copula chains (centred and non-centred grids) through MarkovChainLevyCopula; "
-        "inversion histories of 1..200 draws in 5 orders with _max_storage in {1,2,3,5,..,default}. non-trivial = distinct "
-        "(sampler, vector/chain, uniform) with >= 3 states")
+        "2-d table-copula chains with arbitrary dyadic cell masses, Clayton and 3-d chains for the oracle; vectors whose sum is off 1; "
+        "inversion histories of 1..200 draws in 5 orders with _max_storage in {1,2,3,5,..,default}, batch sample() with lowered storage; "
+        "32-bit words for TABLE incl. alias thresholds. non-trivial = distinct (sampler, vector/chain, uniform) with >= 3 states")
 MODELLED = [
-    "numpy arrays / collections.deque / Python lists as Coq lists (alias deques right-to-left); np.uint(ku) as floor; int(x) as truncation",
+    "numpy arrays / collections.deque / Python lists as Coq lists (alias deques right-to-left); np.uint(ku) as floor; int(x) as truncation; np.cumsum as a running sum; np.searchsorted(side=left) on a non-decreasing array as the number of leading entries < v",
     "list.sort(key, reverse=True) as a stable decreasing insertion sort; bisect.bisect_left by its binary-search loop",
-    "functools.lru_cache of BinarySearchTreeAdapted1D._compute_probability and functools.cache of PairingToZ1d.project as the identity on pure functions",
-    "TableMethod: the byte i & 255 and the alias uniform i / 2^32 are modelled as independent inputs (the dependence through the shared 32-bit word is bounded on paper by K * 2^-24, not proved)",
-    "BinarySearchTreeAdapted (n-d, Levy copula chains): no Coq model; covered by the implementation-only oracle on 2-d independent / completely dependent copula chains (law, never origin / out of grid / zero probability, two draw orders)",
-    "InversionMethod on n-d grids: Model/Inversion.v with the enumeration zd2_project szudzik and the probability table fed as data (correspondence); theorems only for enumerations without inadmissible index",
-    "float arithmetic: theorems are over Q; exact agreement is checked on dyadic inputs where every float operation of the samplers is exact; non-dyadic vectors and non-dyadic intensities are checked by the oracle with tolerance 1e-9",
+    "hidden state: Sampling.sampling_cost counters and the lru_cache of BinarySearchTreeAdapted1D._compute_probability are threaded explicitly in Model/Stateful.v (any eviction policy that only drops entries) and proved not to influence the output; functools.cache of PairingToZ1d.project and the lru_cache of the n-d tree are modelled as the identity on pure functions",
+    "TableMethod: table_draw_word is _sample_one as written (one 32-bit word gives the slot byte and the alias uniform); C02_table_law is the idealised product law, C02_table_draw_law the exact count over the 2^32 words",
+    "BinarySearchTreeAdapted (n-d): Model/BstAdaptedNd.v (buckets = itertools.product of the per-axis pieces, cached axis vectors, flattened `while any: for k` loop) over an abstract box mass; tied exactly on 2-d table-copula chains (harness/stepmeasure.py Table2: arbitrary dyadic cell masses), wider chains (Clayton, 3-d) by the oracle",
+    "InversionMethod: Model/Inversion.v over an abstract enumeration; 1-d: z1d_project (C14) with the implementation's max_frontier_indices fed as data and inside = in the grid; 2-d: zd2_project szudzik, inside = in the box, probability table as data",
+    "the factory: create_vec_jump_matrix and the `states` map in Model/Factory.v (tied exactly)",
+    "float arithmetic: theorems are over Q with exact-sum hypotheses (sum p = 1, u < sum p) that float vectors meet only up to rounding (e.g. sums 0.9999999999999998); exact agreement is checked on dyadic inputs where every float operation of the samplers is exact, incl. vectors whose sum is deliberately off 1; non-dyadic vectors and intensities by the oracle with tolerance 1e-9",
     "Qred in Model/Table.v (reduction to lowest terms, Qred x == x) only keeps vm_compute fast",
 ]
 ASSUMPTIONS = [
     "probability vector entries are >= 0 (zeros and ties allowed), length >= 1; uniforms 0 <= u < sum p (alias, table: sum p = 1)",
-    "C02_inversion_history_free / C02_inversion_law: every index 0..F of the enumeration is admissible (1-d chains built by the factory: Boundary() and PairingToZ1d, discharged by C14_z1d_project; centred square n-d grids with Szudzik) and _max_storage >= 1; prob >= 0 (the factory clips with max(.,0)). Without it: C02_inversion_overflow_refuted (F-C02-7)",
-    "C02_bstadapted1d_law: mass is additive and non-negative on ordered intervals (discharged for the closed forms by C09), cell boundaries are ordered (C13), the left-tail mass equals the mass of the left axis cells (truncation, C01), lambda > 0, at least one point on each side of the origin",
-    "right-closed samplers (INVERSION, BSTADAPTED1D): 'never a zero-probability state' is proved for u > 0 only; u = 0 is the recorded finding F-C02-6 (C02_*_zero_uniform_refuted)",
+    "C02_inversion_admissible: restart_harmless (the restart at x == _max_storage lands on the right admissible index): discharged by C02_inversion_restart_harmless when every index 0..F is admissible (1-d chains: PairingToZ1d enumerates exactly the grid, C14_z1d_project; centred square grids with Szudzik) or when the storage never fills; otherwise false: C02_inversion_overflow_refuted (F-C02-7). prob >= 0 (the factory clips with max(.,0)), _max_storage >= 1, F >= 0",
+    "C02_bstadapted1d_law: mass additive and non-negative on ordered intervals (closed forms: C09), cell boundaries ordered (C13), left-tail mass = mass of the left axis cells (truncation, C01), lambda > 0, a point on each side of the origin; C02_bstadapted1d_cache_history_free: mass is a function of the values of its arguments, eviction only drops entries",
+    "C02_bstadaptednd_*: the box mass bm is non-negative and additive under the split of one axis (C12 for the copula rectangle mass), coordinates in [0, B)",
+    "right-closed samplers (INVERSION, BSTADAPTED 1-d/n-d): 'never a zero-probability state' is proved for u > 0 only; u = 0 is the recorded finding F-C02-6 (C02_*_zero_uniform_refuted)",
 ]
 THEOREM_NOTES = {
-    "C02_bst_law": "full: any length >= 1 (length 1 after the repair 'fix: BinarySearchTree raised IndexError for a single state'); constructor total (fuel 4k+4 proved sufficient); descent = locate on the in-order leaves, each state exactly once with length p_s",
-    "C02_inversion_history_free": "full for enumerations without inadmissible index and _max_storage >= 1 (all reachable states, incl. overflow of the storage); with inadmissible indices and a full storage the statement is false: C02_inversion_overflow_refuted",
-    "C02_inversion_law": "full: right-closed step function with lengths prob(proj k); zero-probability states never returned for u > 0",
-    "C02_huffman_law": "full: whatever position Heap.insert computes; leaves of the final tree are a permutation of the states",
-    "C02_alias_law": "full: invariant (Phi)/(S)/(R) of create_alias, clean-up loops are no-ops in exact arithmetic, draw = locate on the columns, indices < K, zero-probability never",
+    "C02_bst_law": "full: any length >= 1; constructor total (fuel 4k+4 proved sufficient); descent = locate on the in-order leaves, each state exactly once with length p_s",
+    "C02_bst_range_nonzero / C02_huffman_range_nonzero": "corollaries: index in [0,K), a zero-probability state is never returned",
+    "C02_inversion_admissible": "full for every enumeration, with inadmissible indices, under restart_harmless: inv_step = locate_r over the admissible sub-enumeration in every reachable state (any history, storage overflow included); uses the sm_G lemmas of C14_StatesManager",
+    "C02_inversion_history_free / C02_inversion_law": "the wave-1 statements (all indices admissible), kept; instances of C02_inversion_admissible",
+    "C02_huffman_law": "full: whatever position Heap.insert computes",
+    "C02_alias_law": "full: invariant (Phi)/(S)/(R) of create_alias, clean-up loops are no-ops when sum p = 1 (they are exercised by the sum-not-1 vectors of the correspondence), draw = locate on the columns",
     "C02_bstadapted1d_law": "full for the repaired code (grid.middle) under the Section hypotheses listed in `assumptions`",
-    "C02_table_law": "full for the repaired constructor with byte and alias uniform modelled as independent; the word-reuse dependence is not in the model",
-    "C02_no_history": "immediate from the model's types (draws are maps over the tables); the substance is the two-order replay of the correspondence",
-    "C02_bstadaptednd_law": "NOT a theorem: n-d BinarySearchTreeAdapted has no Coq model (oracle only)",
+    "C02_table_law": "idealised product law (byte and alias uniform independent)",
+    "C02_table_draw_law": "exact: number of 32-bit words sent to k is 2^32 p_k within 512 K (P(k) = p_k within K 2^-23), exactly 2^32 p_k without residual; C02_table_draw_never_zero: no word gives a zero-probability state",
+    "C02_factory_never_origin": "create_vec_jump_matrix + states map: increment 0 never returned by ALIAS/BST/HUFFMAN of a 1-d chain (TABLE: C02_table_draw_never_zero with p_origin = 0)",
+    "C02_history_free_table_driven / C02_bstadapted1d_cache_history_free": "state-passing models (cost counters, lru cache with arbitrary eviction): outputs of any draw sequence = map of the state-free draw",
+    "C02_bstadaptednd_bucket_law": "full for sample_one_bucket: termination with the model's fuel by the potential (d+1)(sum(hi-lo) - [axis >= k moves]) + (d-k); right-closed step function; every cell of the bucket exactly once with length bm(cell)",
+    "C02_bstadaptednd_law_partial": "PARTIAL: bucket stage (searchsorted on cumulative bucket probabilities + residual) composed with sample_one_bucket for any non-empty list of buckets none of which is served from the cached axis vectors. Missing for the full statement: composition through the cached vectors (their totals: lemma axis_total) and 'the buckets of itertools.product partition the non-origin cells'; both are covered by the exact correspondence on table-copula chains",
     "C02_inversion_zero_uniform_refuted / C02_bstadapted1d_zero_uniform_refuted": "vm_compute witnesses of F-C02-6 on the faithful models",
     "C02_inversion_overflow_refuted": "vm_compute witness of F-C02-7 on the faithful model",
 }
-LEVEL_TEXT = ("Proof: 8 Coq theorems (closed under the global context, no axioms) state, for ALL probability vectors of any length >= 1 with "
-              "zeros and ties, that BinarySearchTree, HuffmanTree, AliasMethod and TableMethod are step functions of the uniform whose "
-              "intervals labelled k have total length exactly p_k (constructors total, indices in range, zero-probability states never "
-              "returned); that InversionMethod+StatesManager returns, in every reachable state (any draw history, any _max_storage >= 1), "
-              "the state of the sequential search, which is the right-closed step function with lengths prob(state); and that "
-              "BinarySearchTreeAdapted1D is the right-closed step function of the cell masses for any additive non-negative mass (never "
-              "the origin, never outside the axis). 3 further theorems are refutation witnesses of the two recorded findings (u = 0.0 "
-              "goes to a zero-probability state in the right-closed samplers; n-d INVERSION restarts at the wrong index when the storage "
-              "fills). The hand-written executable models are tied to /repo on every run by a vm_compute correspondence: tables (alias "
-              "J,q; bst array; Huffman tree pre-order; table J + embedded alias) and ~20k draws at break points -/+ one step, through the "
-              "direct constructors and through MarkovChainProcess / MarkovChainLevyCopula for every SamplingMethod, inversion histories "
-              "in 5 orders with tiny storage; plus an implementation-only oracle that integrates u -> state exactly. Partial: the n-d "
-              "BinarySearchTreeAdapted and n-d inversion with inadmissible indices are covered by oracle/correspondence only; TABLE's "
-              "reuse of one 32-bit word for byte and alias uniform and float rounding for non-dyadic vectors are not in the theorems.")
+LEVEL_TEXT = ("Proof: 18 positive Coq theorems (closed under the global context, no axioms) state, for ALL probability vectors of any length "
+              ">= 1 with zeros and ties, that BinarySearchTree, HuffmanTree, AliasMethod and TableMethod are step functions of the uniform "
+              "whose intervals labelled k have total length exactly p_k (constructors total, indices in range, zero-probability states and, "
+              "through the factory's vector and states map, the origin never returned); TableMethod also as the code consumes ONE 32-bit "
+              "word (exact count over the 2^32 words within 512 K of 2^32 p_k); that InversionMethod+StatesManager, for every enumeration "
+              "with inadmissible indices whose restart at _max_storage is harmless, returns in every reachable state (any draw history) "
+              "the state of the right-closed step function over the admissible states; BinarySearchTreeAdapted1D is the right-closed step "
+              "function of the cell masses for any additive mass; n-d sample_one_bucket terminates and gives every cell of the bucket "
+              "exactly bm(cell); cost counters and the lru cache (any eviction) never influence outputs. 3 theorems are refutation "
+              "witnesses of the two recorded findings. The hand-written executable models are tied to /repo on every run by a vm_compute "
+              "correspondence (~40k draws at all break points: direct constructors, every SamplingMethod through MarkovChainProcess on "
+              "centred and non-centred grids, n-d tree on table-copula chains, 32-bit words for TABLE, cost counters, the factory "
+              "vector) plus an implementation-only oracle (exact integration of u -> state, exact word law of TABLE, batch vs single "
+              "uniform with lowered storage, same array twice, two orders). Partial: the n-d composition through the cached axis vectors "
+              "and the partition of the cells by the product buckets are covered by exact correspondence only; float rounding for "
+              "non-dyadic inputs is outside the theorems.")
 LEVEL_NOTE = ("Trusted: Coq kernel + vm_compute; hand-written models (lists for arrays/deques, floor for np.uint, stable insertion sort for "
-              "list.sort, bisect_left loop, caches as identity) tied by exact comparison on dyadic inputs; Q arithmetic stands for float "
-              "arithmetic (exact on the dyadic inputs compared; non-dyadic inputs only by the oracle with tolerance 1e-9); the harness "
-              "step measure (c02_stepmodel.py) used to drive the public factory.")
-
+              "list.sort, bisect_left loop, cumsum/searchsorted on sorted arrays) tied by exact comparison on dyadic inputs; Q arithmetic "
+              "stands for float arithmetic (exact on the dyadic inputs compared; non-dyadic inputs only by the oracle with tolerance 1e-9); "
+              "the harness step measures (c02_stepmodel.py, stepmeasure.py Table2) used to drive the public factories.")
 TECHNIQUE = ("Coq proof (induction / loop invariants over Q and lists, closed under the global context) on hand-written executable "
              "models + vm_compute correspondence with the implementation + implementation-only integration oracle")
 
@@ -387,7 +395,7 @@ def direct_samplers(res, rng, groups, viol):
     vecs = gen_vectors(rng, tier)
     n_rand = 12 if tier == "quick" else 40
     max_break_us = 40 if tier == "quick" else 200
-    g_alias, g_bst, g_huff, g_table = [], [], [], []
+    g_alias, g_bst, g_huff, g_table, g_cost = [], [], [], [], []
     oracle_jobs = []
     for cls, p in vecs:
         K = len(p)
@@ -448,14 +456,18 @@ def direct_samplers(res, rng, groups, viol):
             arr = [Fr(float(v)) for v in b.bst]
             us = pick(rng, uniforms_around(rng, [float(v) for v in b.bst[:max(K - 1, 0)]], 0), max_break_us) + [rng.randrange(0, 1 << 30) / (1 << 30) for _ in range(n_rand)]
             outs = []
+            costs = []
             for u in us:
+                b.reset_sampling_cost()
                 o = int(b.sample_with_u(u))
+                costs.append(int(b.sampling_cost))
                 outs.append((u, o))
                 res.count(("bst", cls, K, u), nontrivial=K >= 3, kind="BinarySearchTree.sample_with_u")
                 if not (0 <= o < K) or (p[o] == 0 and is_prob):
                     viol("BinarySearchTree returns a zero-probability or out-of-range state", sampler="bst", p=[str(x) for x in p], u=u, got=o)
             _two_orders(rng, viol, "bst", p, outs, lambda u: int(b.sample_with_u(u)), lambda: (lambda b2: (lambda u: int(b2.sample_with_u(u))))(BinarySearchTree(pf, ident)))
             g_bst.append(f"({pl}, {lst([qlit(v) for v in arr])}, {_qpairs(outs)})")
+            g_cost.append(f"({pl}, true, {lst([f'({qlit(u)}, {zlit(o)}, {zlit(c)})' for (u, o), c in zip(outs, costs)])})")
             if small:
                 oracle_jobs.append(("bst", cls, p, lambda u, b=b: int(b.sample_with_u(u)), [float(v) for v in b.bst]))
         except Exception as e:  # noqa
@@ -467,8 +479,11 @@ def direct_samplers(res, rng, groups, viol):
             pre = _huff_preorder(h.head)
             us = pick(rng, uniforms_around(rng, [float(v) for v in _huff_breaks(h.head)], 0), max_break_us) + [rng.randrange(0, 1 << 30) / (1 << 30) for _ in range(n_rand)]
             outs = []
+            costs = []
             for u in us:
-                o = int(H.sample_with_u(u, h.head)[0])
+                o, c_ = H.sample_with_u(u, h.head)
+                o = int(o)
+                costs.append(int(c_))
                 outs.append((u, o))
                 res.count(("huffman", cls, K, u), nontrivial=K >= 3, kind="huffmantree.sample_with_u")
                 if not (0 <= o < K) or (p[o] == 0 and is_prob):
@@ -476,6 +491,7 @@ def direct_samplers(res, rng, groups, viol):
             _two_orders(rng, viol, "huffman", p, outs, lambda u: int(H.sample_with_u(u, h.head)[0]), lambda: (lambda h2: (lambda u: int(H.sample_with_u(u, h2.head)[0])))(H.HuffmanTree(pf, ident)))
             pre_l = lst([f"({zlit(s)}, {qlit(v)})" for s, v in pre])
             g_huff.append(f"({pl}, {pre_l}, {_qpairs(outs)})")
+            g_cost.append(f"({pl}, false, {lst([f'({qlit(u)}, {zlit(o)}, {zlit(c)})' for (u, o), c in zip(outs, costs)])})")
             if small:
                 oracle_jobs.append(("huffman", cls, p, lambda u, h=h: int(H.sample_with_u(u, h.head)[0]), [float(v) for v in _huff_breaks(h.head)]))
         except Exception as e:  # noqa
@@ -531,6 +547,7 @@ def direct_samplers(res, rng, groups, viol):
     groups.append(("alias", "list Q * (list Z * list Q) * list (Q * Z)", "chk_alias", g_alias))
     groups.append(("bst", "list Q * list Q * list (Q * Z)", "chk_bst", g_bst))
     groups.append(("huffman", "list Q * list (Z * Q) * list (Q * Z)", "chk_huffman", g_huff))
+    groups.append(("costs", "list Q * bool * list (Q * Z * Z)", "chk_costs", g_cost))
     groups.append(("table", "list Q * list Z * bool * option (list Z * list Q) * list (Z * Z)", "chk_table", g_table))
 
     # ---- non-dyadic vectors: oracle only
@@ -1117,10 +1134,208 @@ def chain_2d(res, rng, groups, viol):
     groups.append(("inversion2d", "Z * Z * Z * list (Z * Z * Q) * Z * list (Q * (Z * Z)) * Z", "chk_inv2d", g_inv2))
 
 
+# ----------------------------------------------------------------------------- n-d adapted tree: exact tie + wider oracle
+def build_table_chain(h, L, R, mass, method):
+    """2-d chain on [-L*h, R*h]^2 whose Levy measure has a piecewise-constant density with the given cell masses
+    (harness/stepmeasure.py Table2 + its own Levy copula): every rectangle mass is an exact dyadic float."""
+    import warnings
+    import stepmeasure as SMh
+    from rpylib.grid.spatial import CTMCGrid
+    from rpylib.process.markovchain.markovchainlevycopula import MarkovChainLevyCopula
+    hq = Fr(h)
+    axis = [k * hq for k in range(-L, R + 1)]
+    n = len(axis)
+
+    def bounds(k):
+        return (axis[max(0, k - 1)] + axis[k]) / 2, (axis[k] + axis[min(n - 1, k + 1)]) / 2
+    pieces = []
+    for (i, j), m in mass.items():
+        if m == 0:
+            continue
+        (a1, b1), (a2, b2) = bounds(i), bounds(j)
+        xs = [a1, b1] if not (a1 < 0 < b1) else [a1, Fr(0), b1]
+        ys = [a2, b2] if not (a2 < 0 < b2) else [a2, Fr(0), b2]
+        dens = m / ((b1 - a1) * (b2 - a2))
+        for x0, x1 in zip(xs, xs[1:]):
+            for y0, y1 in zip(ys, ys[1:]):
+                pieces.append((x0, x1, y0, y1, dens))
+    model = SMh.table_copula_model(SMh.Table2(pieces), strict=False)
+    grid = CTMCGrid(h=float(hq), origin_coordinate=L, axes=[np.array([float(x) for x in axis]), np.array([float(x) for x in axis])])
+    with warnings.catch_warnings():
+        warnings.simplefilter("ignore")
+        proc = MarkovChainLevyCopula(model, grid, method)
+    return proc, grid
+
+
+def chain_nd_table(res, rng, groups, viol):
+    """BINARYSEARCHTREEADAPTED (n-d) against Model/BstAdaptedNd.v, exactly: 2-d chains with arbitrary dyadic cell masses
+    (mass in all four quadrants, on the axes, zeros), centred and non-centred grids; uniforms = every multiple of the
+    mass unit -/+ one ulp (all break points) + random dyadics; the same array passed twice, two orders, batch."""
+    from rpylib.distribution.sampling import SamplingMethod as SM
+    tier = res.tier
+    shapes = [(0.5, 1, 1), (0.5, 2, 2), (0.25, 3, 3), (0.5, 1, 3), (0.5, 3, 2)] if tier == "quick" else \
+        [(0.5, 1, 1), (0.5, 2, 2), (0.25, 3, 3), (0.5, 1, 3), (0.5, 3, 2), (0.25, 5, 5), (0.25, 2, 6), (0.125, 8, 8)]
+    g_nd = []
+    for (h, L, R) in shapes:
+        n = L + R + 1
+        for variant in ("generic", "sparse"):
+            tot = 1 << 8
+            cells = [(i, j) for i in range(n) for j in range(n) if (i, j) != (L, L)]
+            ints = _composition(rng, tot, len(cells), zero_frac=0.0 if variant == "generic" else 0.6)
+            mass = {c: Fr(v, tot) for c, v in zip(cells, ints)}
+            ctx = dict(sampler="BINARYSEARCHTREEADAPTED-2d", copula="table", h=h, left=L, right=R,
+                       masses=[[i - L, j - L, str(m)] for (i, j), m in mass.items() if m])
+            try:
+                proc, grid = build_table_chain(h, L, R, mass, SM.BINARYSEARCHTREEADAPTED)
+            except Exception as e:  # noqa
+                viol(f"factory raises {type(e).__name__} for a 2-d table-copula chain", error=str(e)[:200], **ctx)
+                continue
+            if Fr(float(proc.intensity_of_jumps)) != 1:
+                res.broke("table chain intensity", f"{proc.intensity_of_jumps} != 1")
+                continue
+            s = proc.sampling
+            res.bump("chain_nd_table", f"[-{L},{R}]^2 {variant}")
+            target = {(i - L, j - L): m for (i, j), m in mass.items()}
+            us = {0.0, ulp_down(1.0)}
+            for k in range(1, tot):
+                b_ = k / tot
+                us |= {b_, ulp_down(b_), ulp_up(b_)}
+            us = pick(rng, sorted(us), 160 if tier == "quick" else 600) + [rng.randrange(0, 1 << 30) / (1 << 30) for _ in range(24)]
+            outs = []
+            arr = np.array(us, dtype=float)
+            r1 = [tuple(int(x) for x in v) for v in s.sample_with_us(arr)]
+            r2 = [tuple(int(x) for x in v) for v in s.sample_with_us(arr)]
+            if r1 != r2 or not np.array_equal(arr, np.array(us, dtype=float)):
+                viol("BINARYSEARCHTREEADAPTED-2d: sample_with_us overwrites the caller's uniforms: a second call with the same array returns other states",
+                     uniforms=us[:8], **ctx)
+            singles = [tuple(int(x) for x in s.sample_with_us(np.array([u], dtype=float))[0]) for u in reversed(us)][::-1]
+            orig_u = np.random.uniform
+            np.random.uniform = _scripted_uniforms(us)
+            try:
+                batch = [tuple(int(x) for x in v) for v in s.sample(size=len(us))]
+            finally:
+                np.random.uniform = orig_u
+            for u, st, st1, st2 in zip(us, r1, singles, batch):
+                res.count(("nd-table", h, L, R, variant, u), kind="BinarySearchTreeAdapted.sample_with_us (table copula)")
+                if st1 != st or st2 != st:
+                    viol("BINARYSEARCHTREEADAPTED-2d: the state for a uniform differs between one array call, single calls in another order and batch sample()",
+                         u=u, array_call=list(st), single=list(st1), batch=list(st2), **ctx)
+                    break
+                if st == (0, 0) or st not in target:
+                    viol("BINARYSEARCHTREEADAPTED-2d through the factory returns the origin or a state outside the grid", u=u, got=list(st), **ctx)
+                elif target[st] == 0 and u == 0.0:
+                    viol("BINARYSEARCHTREEADAPTED-2d: the uniform 0.0 is sent to a state of probability zero", finding="F-C02-6", u=u, got=list(st),
+                         first_enumerated_state=[0, -L], probability_of_got="0", **ctx)
+                elif target[st] == 0:
+                    viol("BINARYSEARCHTREEADAPTED-2d through the factory returns a zero-probability state", u=u, got=list(st), **ctx)
+                outs.append((u, st))
+            # exact law
+            one = lambda u: tuple(int(x) for x in s.sample_with_us(np.array([u], dtype=float))[0])
+            lengths, _ = integrate_step_function(one, hints=[k / tot for k in range(1, tot)], n0=64)
+            res.count(("nd-table-law", h, L, R, variant), kind="oracle-law-BINARYSEARCHTREEADAPTED-2d-table")
+            badl = [st for st, pr in target.items() if lengths.get(st, Fr(0)) != pr]
+            if badl or set(lengths) - set(target):
+                st = (badl or list(set(lengths) - set(target)))[0]
+                viol("BINARYSEARCHTREEADAPTED-2d: total length of the uniforms sent to a state differs from mass(cell)/intensity",
+                     state=list(st), length=float(lengths.get(st, Fr(0))), target=float(target.get(st, 0)), **ctx)
+            tab = lst([f"({lst([zlit(i), zlit(j)])}, {qlit(m)})" for (i, j), m in sorted(mass.items()) if m])
+            draws = lst([f"({qlit(u)}, {lst([zlit(st[0]), zlit(st[1])])})" for u, st in outs])
+            g_nd.append(f"({zlit(n)}, {zlit(L)}, {tab}, {draws})")
+    groups.append(("bstadaptednd", "Z * Z * list (list Z * Q) * list (Q * list Z)", "chk_nd", g_nd))
+
+
+def chain_nd_wide(res, rng, viol):
+    """implementation-only oracle on wider n-d chains: Clayton copula in 2-d (tolerance), a 3-d independent-copula chain,
+    larger grids in the thorough tier; INVERSION and BINARYSEARCHTREEADAPTED: law against mass(cell)/intensity of the
+    chain's own model, no origin / out-of-grid state, two orders."""
+    import itertools
+    import warnings
+    from c02_stepmodel import C02StepModel, measure_from_cell_masses
+    from rpylib.grid.spatial import CTMCGrid
+    from rpylib.distribution import levycopula as LC
+    from rpylib.distribution.sampling import SamplingMethod as SM
+    from rpylib.model.levycopulamodel import LevyCopulaModel
+    from rpylib.process.markovchain.markovchainlevycopula import MarkovChainLevyCopula
+    tier = res.tier
+    cases = [("clayton", 2, 0.5, 2, 2), ("clayton", 2, 0.5, 1, 3), ("independent", 3, 0.5, 1, 1)]
+    if tier != "quick":
+        cases += [("clayton", 2, 0.25, 5, 5), ("independent", 3, 0.5, 2, 2), ("dependent", 3, 0.5, 1, 1), ("clayton", 2, 0.25, 3, 6)]
+    for cop, dim, h, L, R in cases:
+        n = L + R + 1
+        tot = 1 << 8
+        margins = []
+        for _ in range(dim):
+            ints = _composition(rng, tot, n - 1, zero_frac=0.0)
+            margins.append([Fr(v, tot) for v in ints[:L] + [0] + ints[L:]])
+        for method in (SM.INVERSION, SM.BINARYSEARCHTREEADAPTED):
+            name = f"{method.name}-{dim}d"
+            ctx = dict(sampler=name, copula=cop, h=h, left=L, right=R, margins=[[str(m) for m in mm] for mm in margins])
+
+            def mk():
+                axis = np.array([k * h for k in range(-L, R + 1)], dtype=float)
+                grid = CTMCGrid(h=h, origin_coordinate=L, axes=[axis.copy() for _ in range(dim)])
+                models = [C02StepModel(measure_from_cell_masses(axis, L, mm)) for mm in margins]
+                copula = {"independent": LC.IndependentComponentsCopula, "dependent": LC.DependentComponentsCopula}.get(cop)
+                copula = copula() if copula else LC.ClaytonCopula(theta=0.7, eta=0.3)
+                with warnings.catch_warnings():
+                    warnings.simplefilter("ignore")
+                    return MarkovChainLevyCopula(LevyCopulaModel(models, copula), grid, method), grid
+            try:
+                proc, grid = mk()
+            except Exception as e:  # noqa
+                viol(f"factory raises {type(e).__name__} for a {dim}-d {cop} chain with SamplingMethod.{method.name}", error=str(e)[:200], **ctx)
+                continue
+            s = proc.sampling
+            lam = float(proc.intensity_of_jumps)
+            o = grid.origin_coordinate
+            target = {}
+            for st in itertools.product(range(-L, R + 1), repeat=dim):
+                if not any(st):
+                    continue
+                c = o + st
+                v = grid[c]
+                a = grid.middle(grid.left_point(c), v)
+                b = grid.middle(v, grid.right_point(c))
+                target[st] = max(float(proc.model.mass(a, b)), 0.0) / lam
+            tsum = sum(target.values())
+            res.bump("chain_nd_wide", f"{cop} {dim}d [-{L},{R}]")
+            if abs(tsum - 1) > 1e-6:
+                res.notes.append(f"{dim}-d {cop} chain [-{L},{R}]: cell masses / intensity sum to {tsum} (C01/C12 matter); law compared on [0, sum)")
+            ent = (lambda smp: (lambda u: tuple(int(x) for x in smp.sample_with_u(u)))) if method == SM.INVERSION else \
+                (lambda smp: (lambda u: tuple(int(x) for x in smp.sample_with_us(np.array([u], dtype=float))[0])))
+            one = ent(s)
+            top = min(1.0, tsum) * (1 - 1e-9)
+            one(top)
+            hints = [float(c) for c in getattr(s, "_cumulative_probabilities", [])] + [float(c) for c in getattr(s, "_cum_ps", [])]
+            try:
+                lengths, _ = integrate_step_function(one, hints=hints, n0=512, top=top)
+            except RuntimeError as e:
+                viol(f"{name}: the sampler is not a step function of the uniform with few pieces", error=str(e), **ctx)
+                continue
+            res.count(("law-wide", name, cop, h, L, R), kind=f"oracle-law-{name}-{cop}")
+            for st, pr in target.items():
+                if abs(float(lengths.get(st, Fr(0))) - pr) > 1e-6:
+                    viol(f"{name} through the factory: total length of the uniforms sent to a state differs from mass(cell)/intensity",
+                         state=list(st), length=float(lengths.get(st, Fr(0))), target=pr, **ctx)
+                    break
+            extra = [st for st, ln in lengths.items() if st not in target or (target[st] == 0 and ln > 1e-9)]
+            if extra:
+                viol(f"{name} through the factory: origin / out-of-grid / zero-probability state has positive length", state=list(extra[0]), **ctx)
+            seq = [rng.random() * top for _ in range(20)]
+            a1 = [one(u) for u in seq]
+            f2 = ent(mk()[0].sampling)
+            a2 = [f2(u) for u in reversed(seq)][::-1]
+            for u, x1, x2 in zip(seq, a1, a2):
+                res.count(("wide-seq", name, cop, h, L, R, u), kind=f"{name} sequence ({cop})")
+                if x1 != x2:
+                    viol(f"{name}: the state returned for a uniform depends on the earlier draws", u=u, first=list(x1), second=list(x2), **ctx)
+                    break
+
+
 # ----------------------------------------------------------------------------- Coq header (check functions)
 HEADER = r"""
 From Coq Require Import List ZArith QArith Bool.
-From RV Require Import Base.QB Base.Corr Gen.GenPairing Model.Pairing Model.StepLaw Model.Bst Model.Alias Model.Huffman Model.Table Model.Inversion Model.BstAdapted Model.Factory.
+From RV Require Import Base.QB Base.Corr Gen.GenPairing Model.Pairing Model.StepLaw Model.Bst Model.Alias Model.Huffman Model.Table Model.Inversion Model.BstAdapted Model.Factory Model.BstAdaptedNd Model.Stateful.
 Import ListNotations.
 Open Scope Q_scope.
 
@@ -1157,6 +1372,20 @@ Definition chk_table (c : list Q * list Z * bool * option (list Z * list Q) * li
    | _, _ => false
    end)
   && forallb (fun d => option_eqb Z.eqb (table_draw_word t (fst d)) (Some (snd d))) draws.
+
+(* the cost counters of Model/Stateful.v: BinarySearchTree.sampling_cost (true) / the cost returned by huffmantree.sample_with_u (false) *)
+Definition chk_costs (c : list Q * bool * list (Q * Z * Z)) : bool :=
+  let '(p, is_bst, draws) := c in
+  if is_bst then
+    match create_bst p with
+    | Some b => forallb (fun d => let '(u, o, cost) := d in zpair_eqb (bst_sample_st (length p - 1) b 0 u) (o, cost)) draws
+    | None => false
+    end
+  else
+    match create_huffman p with
+    | Some t => forallb (fun d => let '(u, o, cost) := d in zpair_eqb (huff_sample_st t 0 u) (o, cost)) draws
+    | None => false
+    end.
 
 Definition chk_factory_vec (c : list Q * Q * Z * list Q * list Z) : bool :=
   let '(qv, lam, o, jv, stmap) := c in
@@ -1218,6 +1447,10 @@ Definition chk_inv2d (c : Z * Z * Z * list (Z * Z * Q) * Z * list (Q * (Z * Z)) 
       ok && Z.eqb (i_lpi st) final_lpi
   end.
 
+Definition chk_nd (c : Z * Z * list (list Z * Q) * list (Q * list Z)) : bool :=
+  let '(n, o, tab, draws) := c in
+  forallb (fun d => option_eqb zlist_eqb (nd_sample (table_bm tab) 2 n o (fst d)) (Some (snd d))) draws.
+
 Definition chk_ba1d (c : list Q * Z * list (Q * Q * Q) * Q * Q * list (Q * Z)) : bool :=
   let '(axis, o, pieces, lam, h, draws) := c in
   all_draws (ba_sample axis o mid_arith (step_mass pieces) lam h (nth 0 axis 0 - 1)) draws.
@@ -1235,12 +1468,14 @@ def correspond(res):
     chains(res, rng, groups, viol)
     chain_probability_step(res, rng, viol)
     chain_2d(res, rng, groups, viol)
+    chain_nd_table(res, rng, groups, viol)
+    chain_nd_wide(res, rng, viol)
 
     # ---------- Coq side: the models must compute exactly what the implementation returned ----------
     from concurrent.futures import ThreadPoolExecutor
     jobs = []
     for g, ty, chk, cases in groups:
-        shard = 12 if g in ("alias", "bst", "huffman", "table") else 40
+        shard = 12 if g in ("alias", "bst", "huffman", "table", "costs") else 40
         if not cases:
             continue
         for k in range(0, max(len(cases), 1), shard):
